@@ -96,7 +96,7 @@ func c07() []*Ob {
 				LockCheck(c, c07Funcs(c), c07Rows, c07Requires, c07Exempt)
 				// every tabled field still exists
 				for _, r := range c07Rows {
-					parts := strings.SplitN(r.Type, ".", 2)
+					parts := strings.SplitN(CurrentTypeName(r.Type), ".", 2)
 					tp := c.P.TypesPkg(parts[0])
 					ok := false
 					if tp != nil {
